@@ -386,10 +386,11 @@ func (e *env) maintain(s kvstore.KVStore, p, op string) bool {
 	if p == "" || strings.HasPrefix(e.prefix+string(key), p) {
 		return false
 	}
+	// a write that was attempted may become durable even when the call reported an error: on a buffering store whose
+	// failed Flush keeps the buffer, a later successful Flush (of any writer) carries it to the disk
 	set := func(k string) {
-		if s.Set([]byte(k), []byte{1, 2, 3}) == nil {
-			e.allowed[p+k] = true
-		}
+		e.allowed[p+k] = true
+		_ = s.Set([]byte(k), []byte{1, 2, 3})
 	}
 	retire := func(sub string) {
 		for _, d := range e.decoys {
@@ -422,9 +423,8 @@ func (e *env) maintain(s kvstore.KVStore, p, op string) bool {
 			retire("seq")
 			_ = b.Delete([]byte("data1"))
 			_ = b.Delete([]byte("seq"))
-			if b.Set([]byte("kept"), []byte{9}) == nil {
-				e.allowed[p+"kept"] = true
-			}
+			e.allowed[p+"kept"] = true
+			_ = b.Set([]byte("kept"), []byte{9})
 			_ = b.Commit()
 		}
 	case "iterate":
